@@ -76,6 +76,11 @@ def generate(rng, index, tier):
                   'privileged': rng.random() < 0.2}
         elif r < 0.47:
             ev = {'do': 'abort', 'user': u}
+            if rng.random() < 0.4:
+                ev.update(twice=rng.choice(('abort', 'pause')), hops=rng.randint(0, 4))
+            if rng.random() < 0.3:
+                # ... and blocks the same user shortly before: the management's own abort and the application's meet
+                events.insert(rng.randint(0, len(events)), {'do': 'block', 'user': u, 'gap': rng.choice([0.0, 0.3, 0.8])})
         elif r < 0.55:
             ev = {'do': rng.choice(('pause', 'requeue', 'request')), 'user': u, 'file': rng.randint(0, 2)}
         elif r < 0.7:
@@ -89,6 +94,7 @@ def generate(rng, index, tier):
         ev['gap'] = rng.choice(GAPS)
         events.insert(rng.randint(0, len(events)), ev)
     return {
+        'slow_close': rng.choice([0.05, 0.3, 1.0]) if rng.random() < 0.2 else None,
         'seed': rng.getrandbits(32), 'net': common.draw_net(rng), 'exec': {'delay_ms': [0, 2]},
         'users': users, 'slots': rng.randint(0, 4), 'events': events[:14],
         'size': rng.choice([2000, 20000, 60000]), 'speed_kbps': rng.choice([0, 20, 50, 200]),
@@ -171,6 +177,25 @@ def corpus(tier):
                     [{'do': 'request', 'user': 'u0', 'file': 0, 'gap': 0.0},
                      {'do': 'request', 'user': 'u1', 'file': 0, 'gap': 0.0},
                      {'do': 'status', 'user': 'u0', 'status': 'online', 'privileged': False, 'gap': 5.0}]))
+    # the application aborts a running upload and calls again (abort / pause) while the first call is still closing the file
+    # connection; a queue waits behind it
+    two = [{'name': f'u{i}', 'status': 'online', 'friend': False, 'privileged': False, 'files': 1} for i in range(3)]
+    for twice in ('abort', 'pause'):
+        for hops in (0, 1, 3):
+            for slow in (0.05, 0.5):
+                evs = [{'do': 'request', 'user': f'u{i}', 'file': 0, 'gap': 0.0} for i in range(3)]
+                evs.append({'do': 'abort', 'user': 'u0', 'twice': twice, 'hops': hops, 'gap': 1.5})
+                evs.append({'do': 'abort', 'user': 'u1', 'twice': twice, 'hops': hops, 'gap': 1.0})
+                out.append(plan([dict(u, privileged=(u['name'] == 'u0')) for u in two], 1, evs, slow_close=slow, size=120000))
+    # the application blocks the user of the running upload and aborts that upload itself a moment later; the file connection
+    # is slow to close, so the management's abort (after the next look at the settings) meets the application's
+    first = [dict(u, privileged=(u['name'] == 'u0')) for u in two]       # u0 gets the slot
+    for gap in (0.1, 0.4, 0.7, 1.0):
+        for slow in (1.5, 3.0):
+            evs = [{'do': 'request', 'user': f'u{i}', 'file': 0, 'gap': 0.0} for i in range(3)]
+            evs.append({'do': 'block', 'user': 'u0', 'gap': 1.5})
+            evs.append({'do': 'abort', 'user': 'u0', 'gap': gap})
+            out.append(plan(first, 1, evs, slow_close=slow, size=120000))
     # limit changes around arrivals: 0 -> 2, 3 -> 1, 1 -> 0
     four = [{'name': f'u{i}', 'status': 'online', 'friend': False, 'privileged': False, 'files': 1} for i in range(4)]
     for a, b in ((0, 2), (3, 1), (1, 0), (2, 4), (4, 0)):
@@ -254,6 +279,18 @@ def _run(world: World, plan):
     client = alice.client
     tm = client.transfers
     settings = alice.settings
+    if plan.get('slow_close'):
+        # an application listener that takes its time whenever a peer connection is closing: stopping a running upload
+        # (which closes its file connection while it holds the transfer's lock) takes that long
+        from aioslsk.events import ConnectionStateChangedEvent
+        from aioslsk.network.connection import PeerConnection
+
+        async def slow_close(event):
+            if event.state.name == 'CLOSING' and isinstance(event.connection, PeerConnection):
+                world.net.fired['slow_close_listener'] += 1
+                await asyncio.sleep(float(plan['slow_close']))
+        world.keep_alive.append(slow_close)
+        client.events.register(ConnectionStateChangedEvent, slow_close, priority=2000)
     xpeers = {}
     for name in users:
         xp = XferPeer(world, name)
@@ -473,11 +510,26 @@ def _run(world: World, plan):
                 (fr.add if ev['value'] else fr.discard)(ev['user'])
                 settings.users.friends = fr
                 friend_changed[ev['user']] = loop.time()
+            elif do == 'block' and ev['user'] in users:
+                # the application blocks the user for uploads: the management aborts his unfinished uploads by itself
+                from aioslsk.user.model import BlockingFlag
+                fired['settings_change'] += 1
+                settings.users.blocked = dict(settings.users.blocked, **{ev['user']: BlockingFlag.UPLOADS})
             elif do == 'abort' and ev['user'] in users:
                 for t in list(uploads):
                     if t.username == ev['user'] and t in tm.transfers and t.state.VALUE.name in ('QUEUED', 'INITIALIZING', 'UPLOADING'):
                         fired['user_abort'] += 1
                         world.call(alice, 'abort', tm.abort, t)
+                        if ev.get('twice'):
+                            # the application calls again (abort or pause) while the first call is still under way
+                            fired['overlapping_user_calls'] += 1
+
+                            def again(n, t=t, what=ev['twice']):
+                                if n > 0:
+                                    loop.call_soon(again, n - 1)
+                                else:
+                                    world.call(alice, what + '2', tm.abort if what == 'abort' else tm.pause, t)
+                            again(int(ev.get('hops', 0)))
                         break
             elif do in ('pause', 'requeue') and ev['user'] in users:
                 # user pauses an upload of that peer / puts its oldest stopped upload back in the queue
